@@ -283,7 +283,7 @@ Definition stmt_recover (s : sess) (sid slot : positive) : sess * result :=
   let '(s1, r) := recover_ops s sid l in
   (upd_saved s1 (delete slot (saved s1)), r).
 
-(* ---- Session.Allocate / Pipeline / Evict (no statement, no rollback) ---- *)
+(* ---- Session.Allocate / Pipeline / Evict (no statement) ---- *)
 
 Definition dispatch (s : sess) (tid : positive) : sess * bool :=
   match heap s !! tid with
@@ -296,10 +296,16 @@ Definition dispatch (s : sess) (tid : positive) : sess * bool :=
       (s2, found)
   end.
 
+(* a task whose dispatch fails has its placement undone the way Statement.Commit does it for a
+   refused bind (Session.undoAllocation: UpdateTaskStatus Pending, RemoveTask, Deallocate
+   handlers, NodeName cleared) before the error is returned.  [Before this repair the loop
+   returned with the task still Allocated on the node; see dispatch_all_prefix in C07/Refuted.v.] *)
 Fixpoint dispatch_all (s : sess) (l : list positive) : sess * bool :=
   match l with
   | [] => (s, true)
-  | t :: r => let '(s1, ok) := dispatch s t in if ok then dispatch_all s1 r else (s1, false)
+  | t :: r => let '(s1, ok) := dispatch s t in
+              if ok then dispatch_all s1 r
+              else (match heap s1 !! t with Some p => unallocate_with s1 p | None => s1 end, false)
   end.
 
 (* [jr]: ssn.JobReady as a function of the session and the job (scripted in C07, the gang
